@@ -2,6 +2,7 @@
 
 HARNESSES = {
     'c01': dict(flavour='asan', srcs=['c01.cpp']),
+    'engine': dict(flavour='asan', srcs=['engine.cpp']),
 }
 
 PROPS = {
@@ -17,6 +18,38 @@ PROPS = {
              'victim subtree; distinct = distinct scenario JSON (hash set).',
         assumptions=['libc-boundary shim and SimWorld kernel model (DESIGN.md 3.2/3.3)',
                      'tmpfs on /dev/shm behaves like cgroupfs for readdir/openat/xattr'],
+    ),
+    'C02': dict(
+        harness='engine', env={'VP_PROP': 'C02'}, level='exploration',
+        quick=dict(shards=8, n=2500, size=100),
+        thorough=dict(shards=16, n=100000, size=100),
+        rule='rapidcheck-generated configuration (1-4 rulesets x 1-3 groups x 1-3 scripted detectors x 1-4 scripted '
+             'actions, delays, silence-logs) x 3-15 tick history of per-plugin return values (CONTINUE/STOP/ASYNC_PAUSED) '
+             'and virtual clock advances; the complete run()/prerun() call log of the real main loop is compared with '
+             'the EngineModel reference. Non-trivial = a tick in which some group does not fire while another '
+             "ruleset's chain runs, or a group containing an ASYNC-returning detector fires; distinct by scenario hash.",
+        assumptions=['scripted plugins in the real registry; virtual CLOCK_MONOTONIC'],
+    ),
+    'C05': dict(
+        harness='engine', env={'VP_PROP': 'C05'}, level='exploration',
+        quick=dict(shards=8, n=2500, size=100),
+        thorough=dict(shards=16, n=100000, size=100),
+        rule='as C02 with generator biased to ruleset/plugin post_action_delay combinations (0..20 s, unset), STOP '
+             'reached synchronously or after ASYNC_PAUSED episodes, tick spacings 0..60 s. Oracle: EngineModel '
+             '(no action of a ruleset before t+d, restart allowed from t+d, d = stopping action\'s delay if it gives '
+             'one). Non-trivial = a tick exactly at t+d, or a STOP after >=1 ASYNC whose own delay differs from the '
+             "ruleset's; distinct by scenario hash.",
+        assumptions=['scripted plugins in the real registry; virtual CLOCK_MONOTONIC'],
+    ),
+    'C06': dict(
+        harness='engine', env={'VP_PROP': 'C06'}, level='exploration',
+        quick=dict(shards=8, n=2500, size=100),
+        thorough=dict(shards=16, n=100000, size=100),
+        rule='as C02 with generator biased to ASYNC_PAUSED episodes at every chain position and detectors mostly '
+             'silent; oracle additionally compares the ActionContext (ruleset, group, run uuid class, prekill '
+             'deadline, target) seen on every resume with the one the chain was fired with and the plugin object '
+             'serial. Non-trivial = a suspension lasting >=2 ticks during which no group of that ruleset fires.',
+        assumptions=['scripted plugins in the real registry; virtual CLOCK_MONOTONIC'],
     ),
 }
 
@@ -43,9 +76,9 @@ def cov_from(agg):
 
 
 def run_generic(r, spec, tier):
-    nrep = r.replay_tier(spec['harness'])
+    nrep = r.replay_tier(spec['harness'], extra_env=spec.get('env'))
     agg = r.campaign(spec['harness'], 'main', tier['shards'], tier['n'], tier['size'],
-                     timeout=tier.get('timeout'))
+                     extra_env=spec.get('env'), timeout=tier.get('timeout'))
     cov = cov_from(agg)
     cov['replayed'] = nrep
     return cov
